@@ -195,7 +195,9 @@ def r19_2(run):
         for o in own:
             if o is None:
                 continue
-            between = [y for y in ys if y not in (r, o) and y not in own and g.dominates(r, y) and o in g.reachable([s_ for _, s_ in y.succ]) and not g.dominates(o, y)]
+            # (TAKEOWNERSHIP is the request itself: not even the auxiliary RESETCONF is awaited in front of it - if Tor rejects that,
+            #  ownership is never requested while a 100% event still completes the launch)
+            between = [y for y in ys if y not in (r, o) and (y not in own or (o is own[0] and y is own[1])) and g.dominates(r, y) and o in g.reachable([s_ for _, s_ in y.succ]) and not g.dominates(o, y)]
             run.ob('R19.2', tc, o.ast, 'ownership is requested before anything else is awaited once bootstrap progress can be heard', not between, slot='ownership-first:%s' % src(o.ast)[:40],
                    message='_tor_connected awaits %s between arming the STATUS_CLIENT listener and %s: a 100%% event in that window '
                            'announces success on a connection that has not requested ownership' % ([src(y.ast)[:50] for y in between][:1], src(o.ast)[:50]))
